@@ -17,8 +17,9 @@ def gen_cases(seed, n_cases, maxn=12):
     ops = ["crop", "sort", "remove", "bin", "split", "flip", "merge"]
     for ci in range(n_cases):
         yield (ci, ops[ci % 7], ci % 4), {"op": ops[ci % 7], "n": int(rng.integers(2, 26)), "h": int(rng.integers(4, maxn + 1)), "w": int(rng.integers(4, maxn + 1)),
-                                         "dtype": ["float32", "int16"][ci % 2], "in": ["xyz", "zyx"][(ci // 2) % 2], "out": ["xyz", "zyx"][(ci // 4) % 2],
-                                         "file_input": bool(ci % 3 == 0), "write": bool(ci % 2 == 0), "seed": int(rng.integers(1 << 30)), "from1": bool(ci % 5 != 0)}
+                                         "dtype": str(rng.choice(["float32", "int16"])), "in": str(rng.choice(["xyz", "zyx"])), "out": str(rng.choice(["xyz", "zyx"])),
+                                         "file_input": bool(rng.random() < 0.35), "write": bool(rng.random() < 0.6), "seed": int(rng.integers(1 << 30)), "from1": bool(rng.random() < 0.7),
+                                         "crop_given": str(rng.choice(["both", "width", "height", "none"]))}
 
 
 def run_case(c):
@@ -44,7 +45,11 @@ def run_case(c):
         results, expect = None, None
         if op == "crop":
             nw, nh = int(rng.integers(1, w + 1)), int(rng.integers(1, h + 1))
-            r, e = call(tiltstack.crop, inp, new_width=nw, new_height=nh, output_file=out_file, **kw)
+            given = c.get("crop_given", "both")
+            a_w = nw if given in ("both", "width") else None
+            a_h = nh if given in ("both", "height") else None
+            nw, nh = (nw if a_w is not None else w), (nh if a_h is not None else h)
+            r, e = call(tiltstack.crop, inp, new_width=a_w, new_height=a_h, output_file=out_file, **kw)
             sx, sy = w // 2 - nw // 2, h // 2 - nh // 2
             expect = base[:, sy:sy + nh, sx:sx + nw]
             _, e2 = call(tiltstack.crop, inp, new_width=w + 1, **kw)
@@ -123,6 +128,6 @@ def run_case(c):
             return {"what": f"{op}: dtype changed", "got": str(got.dtype)}
         if out_file:
             f = parse_mrc(out_file)
-            if "error" in f or f["data"].shape != got.shape or not np.array_equal(f["data"].astype(np.float64), got.astype(np.float64)):
+            if "error" in f or f["data"].shape != got.shape or f["data"].dtype.itemsize != got.dtype.itemsize or not np.array_equal(f["data"].astype(np.float64), got.astype(np.float64)):
                 return {"what": f"{op}: the written file does not hold the result in (n,y,x) order", "file_shape": list(f["data"].shape) if "data" in f else None, "result_shape": list(got.shape)}
     return None
